@@ -2,6 +2,8 @@ package props
 
 import (
 	"fmt"
+	"github.com/honeytrap/honeytrap/services"
+	"github.com/honeytrap/honeytrap/services/ftp"
 	"strings"
 
 	"verif/h/core"
@@ -371,7 +373,95 @@ func c12LDAPOne(c *core.Ctx, s *lab.Server, set credSet, seq []cred, dn func(str
 
 // ---------------------------------------------------------------- ftp
 
+// c12FTPTable is the credential table of the next "verif-ftp-auth" service instance.
+var c12FTPTable map[string]string
+
+func init() {
+	services.Register("verif-ftp-auth", func(options ...services.ServicerFunc) services.Servicer {
+		s := ftp.FTP(options...)
+		ftp.VerifSetAuth(s, ftp.VerifAuth(c12FTPTable))
+		return s
+	})
+}
+
+// c12FTPTables: (a) the credential checker itself against a map, for all tables of <= 2 entries over
+// 3 users x 3 passwords and all 16 presented pairs; (b) whole sessions against the real service whose
+// checker is built over tables with two users (the shipped service has a single fixed credential).
+func c12FTPTables(c *core.Ctx) {
+	users := []string{"root", "admin", "Root", ""}
+	pws := []string{"root", "123456", "", "ROOT"}
+	var all []cred
+	for _, u := range users[:3] {
+		for _, p := range pws[:3] {
+			all = append(all, cred{u, p})
+		}
+	}
+	c.Case("ftp-table/checker", func() {
+		var tables [][]cred
+		tables = append(tables, nil)
+		for i, a := range all {
+			tables = append(tables, []cred{a})
+			for _, b := range all[i+1:] {
+				if a.u != b.u { // a map holds one password per user
+					tables = append(tables, []cred{a, b})
+				}
+			}
+		}
+		for _, t := range tables {
+			m := map[string]string{}
+			for _, x := range t {
+				m[x.u] = x.p
+			}
+			auth := ftp.VerifAuth(m)
+			for _, u := range users {
+				for _, p := range pws {
+					got, err := auth.CheckPasswd(u, p)
+					pw, ok := m[u]
+					want := ok && pw == p
+					c.Count("executions", 1)
+					if err != nil || got != want {
+						c.Violationf("C12:ftp:checker", "credential table %v: CheckPasswd(%q, %q) = %v, %v; the pair is in the table: %v", t, u, p, got, err, want)
+					}
+				}
+			}
+			c.Outcome("ftp-table", fmt.Sprint(t))
+		}
+	})
+	gatedAll := []string{"PWD", "CWD /", "LIST", "MKD d1", "DELE f1", "RNFR f1", "SIZE f1", "SYST"}
+	gatedSafe := []string{"PWD", "CWD /", "SIZE f1"}
+	for ti, t := range [][]cred{{{"root", "root"}, {"admin", "123456"}}, {{"root", "ROOT"}, {"admin", "root"}}} {
+		ti, t := ti, t
+		c.Case(fmt.Sprintf("ftp-table/session/%v", t), func() {
+			m := map[string]string{}
+			for _, x := range t {
+				m[x.u] = x.p
+			}
+			set := credSet{creds: t}
+			var pairs []cred
+			for _, u := range []string{"root", "admin", "anonymous"} {
+				for _, p := range []string{"root", "123456", "ROOT", "anonymous"} { // PASS requires a parameter: no empty passwords on the wire
+					pairs = append(pairs, cred{u, p})
+				}
+			}
+			for _, a := range pairs {
+				for _, b := range append([]cred{{"", ""}}, pairs...) {
+					seq := []cred{a}
+					if b.u != "" {
+						seq = append(seq, b)
+					}
+					c12FTPTable = m
+					s := startSvc("verif-ftp-auth")
+					c12FTPSession(c, s, "verif-ftp-auth", set, seq, gatedAll, gatedSafe)
+					s.Stop()
+				}
+			}
+			_ = ti
+		})
+	}
+}
+
 func c12FTP(c *core.Ctx) {
+	c12FTPTables(c)
 	set := credSet{creds: []cred{{"anonymous", "anonymous"}}}
 	users := []string{"anonymous", "root", "anonymousx", "Anonymous"}
 	pws := []string{"anonymous", "root", "x", "anonymous2"}
@@ -409,8 +499,12 @@ func c12FTP(c *core.Ctx) {
 }
 
 func c12FTPOne(c *core.Ctx, s *lab.Server, set credSet, seq []cred, gatedAll, gatedSafe []string) {
+	c12FTPSession(c, s, "ftp", set, seq, gatedAll, gatedSafe)
+}
+
+func c12FTPSession(c *core.Ctx, s *lab.Server, svc string, set credSet, seq []cred, gatedAll, gatedSafe []string) {
 	lab.ResetEvents()
-	conn := dial(s, "ftp", 0)
+	conn := dial(s, svc, 0)
 	lab.Quiesce()
 	conn.Take()
 	cmd := func(l string) string {
@@ -419,7 +513,7 @@ func c12FTPOne(c *core.Ctx, s *lab.Server, set credSet, seq []cred, gatedAll, ga
 		c.Count("transitions", 1)
 		return string(conn.Take())
 	}
-	desc := func() string { return fmt.Sprintf("ftp attempts=%v", seq) }
+	desc := func() string { return fmt.Sprintf("ftp credentials=%v attempts=%v", set.creds, seq) }
 	loggedIn := false
 	probe := func(stage string) {
 		list := gatedAll
